@@ -12,6 +12,7 @@ import (
 	"crypto/x509/pkix"
 	"encoding/asn1"
 	"fmt"
+	"strings"
 
 	"golang.org/x/crypto/cryptobyte"
 	cbasn1 "golang.org/x/crypto/cryptobyte/asn1"
@@ -363,18 +364,25 @@ func families(w *world) []*family {
 			}}}})
 
 	// ---- SM2 ciphertext sizes (SM2 and legacy curves) ------------------------------------
-	add(&family{name: "sm2-ciphertext-sizes", params: names("sm2", "p256", "p521"),
-		gen: func(c *mon.Case, p string, emit func(string, []byte)) {
+	add(&family{name: "sm2-ciphertext-sizes", params: names("sm2/uncompressed", "sm2/compressed", "sm2/asn1", "p256/uncompressed", "p256/compressed", "p256/asn1", "p521/uncompressed", "p521/compressed", "p521/asn1"),
+		gen: func(c *mon.Case, param string, emit func(string, []byte)) {
+			p, form, _ := strings.Cut(param, "/")
 			seedName := map[string]string{"sm2": "sm2.ct.c1c3c2", "p256": "sm2.legacy.p256.ct.c1c3c2", "p521": "sm2.legacy.p521.ct.c1c3c2"}[p]
 			ct := w.get(seedName).data
 			bl := map[string]int{"sm2": 32, "p256": 32, "p521": 66}[p]
 			c1 := ct[:1+2*bl]
-			for n := 0; n <= 70; n++ {
-				emit(fmt.Sprintf("c1+%d", n), append(append([]byte{}, c1...), pat(c.R, n)...))
+			if form == "uncompressed" {
+				for n := 0; n <= 70; n++ {
+					emit(fmt.Sprintf("c1+%d", n), append(append([]byte{}, c1...), pat(c.R, n)...))
+				}
+				return
 			}
-			comp := append([]byte{2 + c1[2*bl]&1}, c1[1:1+bl]...)
-			for n := 0; n <= 70; n++ {
-				emit(fmt.Sprintf("compressed-c1+%d", n), append(append([]byte{}, comp...), pat(c.R, n)...))
+			if form == "compressed" {
+				comp := append([]byte{2 + c1[2*bl]&1}, c1[1:1+bl]...)
+				for n := 0; n <= 70; n++ {
+					emit(fmt.Sprintf("compressed-c1+%d", n), append(append([]byte{}, comp...), pat(c.R, n)...))
+				}
+				return
 			}
 			for _, f := range []byte{0, 1, 5, 6, 7, 8, 0x30} {
 				m := append([]byte{}, ct...)
@@ -405,12 +413,16 @@ func families(w *world) []*family {
 				emit(fmt.Sprintf("asn1/c2=%d", n), dSeq(uInt(x), uInt(y), dOct(c3), dOct(pat(c.R, n))))
 			}
 		},
-		calls: func() []builtCall {
-			var out []builtCall
-			for _, v := range []struct {
+		callsFor: func(param string) []builtCall {
+			// the key of the curve the input was built for, and the SM2 key for the inputs of the other curves
+			p, _, _ := strings.Cut(param, "/")
+			type kv struct {
 				n string
 				k *sm2.PrivateKey
-			}{{"sm2", w.sm2A}, {"legacy-p256", w.nistP256}, {"legacy-p521", w.nistP521}} {
+			}
+			keys := map[string][]kv{"sm2": {{"sm2", w.sm2A}, {"legacy-p256", w.nistP256}}, "p256": {{"legacy-p256", w.nistP256}, {"sm2", w.sm2A}}, "p521": {{"legacy-p521", w.nistP521}}}[p]
+			var out []builtCall
+			for _, v := range keys {
 				k := v.k
 				out = append(out,
 					builtCall{"sm2.Decrypt/" + v.n, func(b []byte) bool { _, err := sm2.Decrypt(k, b); return err == nil }},
@@ -420,14 +432,16 @@ func families(w *world) []*family {
 					}},
 					builtCall{"sm2.PrivateKey.Decrypt/" + v.n + "/ASN1opts", func(b []byte) bool { _, err := k.Decrypt(nil, b, sm2.ASN1DecrypterOpts); return err == nil }})
 			}
-			out = append(out, builtCall{"sm2.ciphertext-converters", func(b []byte) bool {
-				_, e1 := sm2.ASN1Ciphertext2Plain(b, nil)
-				_, e2 := sm2.PlainCiphertext2ASN1(b, sm2.C1C3C2)
-				_, e3 := sm2.AdjustCiphertextSplicingOrder(b, sm2.C1C3C2, sm2.C1C2C3)
-				return e1 == nil || e2 == nil || e3 == nil
-			}})
+			if p == "sm2" {
+				out = append(out, builtCall{"sm2.ciphertext-converters", func(b []byte) bool {
+					_, e1 := sm2.ASN1Ciphertext2Plain(b, nil)
+					_, e2 := sm2.PlainCiphertext2ASN1(b, sm2.C1C3C2)
+					_, e3 := sm2.AdjustCiphertextSplicingOrder(b, sm2.C1C3C2, sm2.C1C2C3)
+					return e1 == nil || e2 == nil || e3 == nil
+				}})
+			}
 			return out
-		}()})
+		}})
 
 	// ---- PKCS#8 containers with chosen IV / nonce / ciphertext / parameter sizes ------
 	mkP8 := func(pbes asn1.ObjectIdentifier, kdfOID asn1.ObjectIdentifier, kdfParams []byte, encOID asn1.ObjectIdentifier, encParams []byte, ct []byte) []byte {
@@ -620,7 +634,7 @@ func families(w *world) []*family {
 	}
 	add(&family{name: "deep-nesting", kdf: true, params: names("indefinite", "indefinite-unterminated", "definite", "explicit-tags", "octet-strings", "high-tag-numbers", "length-forms"),
 		gen: func(c *mon.Case, p string, emit func(string, []byte)) {
-			for _, depth := range []int{1, 2, 3, 10, 100, 1000, 10000, 30000} {
+			for _, depth := range []int{1, 2, 3, 10, 100, 1000, 3000, 30000} {
 				var b []byte
 				switch p {
 				case "indefinite":
@@ -629,7 +643,7 @@ func families(w *world) []*family {
 					b = bytes.Repeat([]byte{0x30, 0x80}, depth)
 				case "definite", "explicit-tags", "octet-strings":
 					tag := map[string]byte{"definite": 0x30, "explicit-tags": 0xa0, "octet-strings": 0x24}[p]
-					if depth > 10000 {
+					if depth > 3000 {
 						continue
 					}
 					b = []byte{0x05, 0x00}
